@@ -605,6 +605,7 @@ void vf_run(const uint8_t *data, size_t len)
     TW[0].init(false, "bin'");
     TW[1].init(true, "rb'");
     bool twin_on[2] = {false, false};
+    bool second_tree = false;
     std::vector<uint8_t> tab;
     for (int o = 0; o < NOPS; o++) for (int k = 0; k < PROFILES[prof][o]; k++) tab.push_back((uint8_t)o);
     TRACE("header kind=%s keys=%d cmp=%d maxlive=%zu profile=%d", kind == 0 ? "both" : kind == 1 ? "bintree" : "rbtree", K,
@@ -636,7 +637,13 @@ void vf_run(const uint8_t *data, size_t len)
             Obs oa, ob;
             bool first_clear = c15 && op == CLEAR && !twin_on[i];
             const char *rc = T[i].rb ? "C15.rbtree.reuse" : "C15.bintree.reuse";
-            if (!twin_on[i] && !first_clear) { apply(T[i], cx, op, a, b, K, maxlive, nullptr, audits); continue; }
+            if (!twin_on[i] && !first_clear) {
+                apply(T[i], cx, op, a, b, K, maxlive, nullptr, audits);
+                // C02: a second, independent red-black tree of the same element type takes the same operations with other
+                // keys, interleaved with the first (two indexes fed from one stream): trees must not share state
+                if (c02 && i == 1 && op != CLEAR) { CaseCtx cx2{}; apply(TW[1], cx2, op, (uint8_t)(a * 5 + 3), b, K, maxlive, nullptr, audits); second_tree = true; }
+                continue;
+            }
             bool okA = model_ok([&] { apply(T[i], cx, op, a, b, K, maxlive, &oa, audits); });
             bool okB;
             if (first_clear) {
@@ -682,7 +689,7 @@ void vf_run(const uint8_t *data, size_t len)
     for (int i = 0; i < 2; i++) {
         if (!use[i]) continue;
         apply(T[i], cx, CLEAR, 0, 0, K, maxlive, nullptr, false);
-        if (twin_on[i]) apply(TW[i], cx, CLEAR, 0, 0, K, maxlive, nullptr, false);
+        if (twin_on[i] || (second_tree && i == 1)) apply(TW[i], cx, CLEAR, 0, 0, K, maxlive, nullptr, false);
         CHECK(T[i].all.empty(), T[i].rb ? "C15.rbtree.once" : "C15.bintree.once", "%zu elements never reached the clear callback", T[i].all.size());
     }
     if (swapped) {
